@@ -114,3 +114,27 @@ def live_overlap_oracle(log):
         elif lhs[0] == 'destroy':
             live.clear()
     return msgs
+
+
+def exec_lockstep(ctx, res, rexe):
+    """memory_pool<node_pool> logs of configurations without the double-free check (intrusive list) replayed through the Exec
+    pool model (PoolExec: arena + list, every address, every upstream request, every range handed to the list)"""
+    import subprocess
+    steps = 0; div = 0; n = 0
+    if not rexe:
+        return dict(exec_pool_logs=0, exec_pool_steps=0, exec_pool_divergences=0)
+    for r in res:
+        kind, tgt, c = r['case']['tag']
+        if kind != 'pool' or not str(tgt).startswith('pool node ') or build.CONFIGS[c]['DBL']:
+            continue
+        n += 1
+        out = subprocess.run([rexe, 'poolexec', '0'], input=r['log'], stdout=subprocess.PIPE, text=True).stdout
+        for ln in out.split('\n'):
+            if ln.startswith('SUMMARY'):
+                kv = dict(x.split('=') for x in ln.split()[1:])
+                steps += int(kv.get('exec_steps', 0))
+            elif ln.startswith('DIVERGE'):
+                div += 1
+                if div <= 3:
+                    ctx.tie_broken.append('correspondence (Exec pool): %s (%s cfg=%s)' % (ln[:300], tgt, c))
+    return dict(exec_pool_logs=n, exec_pool_steps=steps, exec_pool_divergences=div)
